@@ -9,6 +9,7 @@ import (
 	"net/http"
 	"sort"
 	"strings"
+	"time"
 
 	"github.com/gorilla/websocket"
 	"pgregory.net/rapid"
@@ -58,6 +59,9 @@ type ServerHSCase struct {
 	// with other Subprotocols / compression settings, which the application
 	// then changed to the ones of this case.
 	WarmUp bool `json:"warm_up,omitempty"`
+	// HSTimeout: Upgrader.HandshakeTimeout is one hour and the connection
+	// honours write deadlines.
+	HSTimeout bool `json:"hs_timeout,omitempty"`
 }
 
 func (r HSReq) raw() string {
@@ -323,6 +327,7 @@ func genServerHSCase(t *rapid.T) ServerHSCase {
 	}
 	c.Wrapped = rapid.IntRange(0, 3).Draw(t, "wrapped") == 0
 	c.WarmUp = rapid.IntRange(0, 2).Draw(t, "warm_up") == 0
+	c.HSTimeout = rapid.IntRange(0, 2).Draw(t, "hs_timeout") == 0
 	if rapid.IntRange(0, 7).Draw(t, "via_func") == 0 {
 		// the deprecated function has no Subprotocols / compression / pool / origin policy
 		c.ViaFunc, c.CheckOrigin, c.SubsNil, c.Subs, c.Compression, c.Pool = true, "allow", true, nil, false, false
@@ -449,6 +454,10 @@ func checkC12(c ServerHSCase, o *Obs) error {
 	if c.Pool {
 		u.WriteBufferPool = &simplePool{}
 	}
+	if c.HSTimeout {
+		u.HandshakeTimeout = time.Hour
+		tr.HonourWriteDeadline = true
+	}
 	switch c.CheckOrigin {
 	case "allow":
 		u.CheckOrigin = func(*http.Request) bool { return true }
@@ -482,8 +491,15 @@ func checkC12(c ServerHSCase, o *Obs) error {
 		wtr.NoLog = true
 		wreq := upgradeRequest(true)
 		wreq.Header["Sec-Websocket-Protocol"] = []string{"warm, chat"}
-		if wc, werr := u.Upgrade(&fakeRW{conn: wtr, brw: bufio.NewReadWriter(bufio.NewReaderSize(wtr, 4096), bufio.NewWriterSize(wtr, 4096))}, wreq, nil); werr == nil {
+		// ... and with the very responseHeader map the application passes again
+		// (a map it built once and reuses): nothing of the first negotiation may
+		// stay behind in it
+		before := fmt.Sprint(rh)
+		if wc, werr := u.Upgrade(&fakeRW{conn: wtr, brw: bufio.NewReadWriter(bufio.NewReaderSize(wtr, 4096), bufio.NewWriterSize(wtr, 4096))}, wreq, rh); werr == nil {
 			wc.Close()
+		}
+		if after := fmt.Sprint(rh); after != before {
+			return fmt.Errorf("Upgrade changed the application's responseHeader map from %s to %s", before, after)
 		}
 		u.Subprotocols, u.EnableCompression = subs, comp
 		o.Class("upgrader_reused_with_changed_settings")
